@@ -457,6 +457,10 @@ func (s *ServerSession) doCreateStream(tid int, stream *Stream) error {
 }
 
 func (s *ServerSession) doPublish(tid int, stream *Stream) (err error) {
+	// 一个连接只能成为一次pub或者sub，重复的publish、play信令（或者publish之后又play）直接关闭连接
+	if s.sessionStat.BaseType() != base.SessionBaseTypePubSubStr {
+		return nazaerrors.Wrap(base.ErrRtmpUnexpectedMsg)
+	}
 	if err = stream.msg.readNull(); err != nil {
 		return err
 	}
@@ -498,6 +502,10 @@ func (s *ServerSession) doPublish(tid int, stream *Stream) (err error) {
 }
 
 func (s *ServerSession) doPlay(tid int, stream *Stream) (err error) {
+	// 一个连接只能成为一次pub或者sub，重复的publish、play信令（或者publish之后又play）直接关闭连接
+	if s.sessionStat.BaseType() != base.SessionBaseTypePubSubStr {
+		return nazaerrors.Wrap(base.ErrRtmpUnexpectedMsg)
+	}
 	if err = stream.msg.readNull(); err != nil {
 		return err
 	}
